@@ -542,7 +542,11 @@ class SInt:
     def __rlshift__(s, o): return s._bop(o, lambda a, b: b << a)
     def __rshift__(s, o): return s._bop(o, lambda a, b: a >> b)      # arithmetic, as int64
     def __rrshift__(s, o): return s._bop(o, lambda a, b: b >> a)
-    def __mod__(s, o): return s._bop(o, lambda a, b: a % b)          # floored (bvsmod), as python/numba
+    def __mod__(s, o):
+        # floored modulo, as python/numba; for a positive power-of-two modulus it is exactly the low bits
+        if isinstance(o, (int, np.integer)) and not isinstance(o, bool) and int(o) > 0 and (int(o) & (int(o) - 1)) == 0:
+            return s._bop(int(o) - 1, lambda a, b: a & b)
+        return s._bop(o, lambda a, b: a % b)
     def __floordiv__(s, o): raise Unsupported("SInt floordiv")
     def __neg__(s): return SInt(z3.simplify(-s.t))
     def __invert__(s): return SInt(z3.simplify(~s.t))
